@@ -18,6 +18,7 @@ def run(ctx):
         {"scens": wcat.dag_scenarios(3, rotations=(1,), with_failures=True, all_orders=False, min_n=2), "policies": ("FIFO",), "bound": 0 if q else 1},
         {"scens": diamond[:: (6 if q else 1)], "policies": ("FIFO",), "bound": 1, "cap": 4000},
     ]
+    plan.append({"scens": wcat.special_dep_scenarios(), "policies": ("FIFO", "LIFO", "JOBS"), "bound": 1})
     if not q:
         plan.append({"scens": wcat.dag_scenarios(3, rotations=(0, 4), all_orders=False, min_n=3), "policies": ("FIFO",), "bound": 2, "cap": 30000})
     res = run_w(ctx, PROPERTY, plan,
@@ -35,9 +36,9 @@ def static_half(ctx, res):
     from .genspace import enumerate_with_seeds
     from .pool import Pool
     if ctx.quick:
-        descs, _, _ = enumerate_with_seeds(["job", "jobout"], ["job-up", "job-holder"], N=5, k=3, kseed=1, allow=("struct", "pre"))
+        descs, _, _ = enumerate_with_seeds(["job", "jobout"], ["job-up", "job-holder", "job-outpre"], N=5, k=3, kseed=1, allow=("struct", "pre"))
     else:
-        descs, _, _ = enumerate_with_seeds(["job", "jobout"], ["job-up", "job-holder"], N=6, k=4, kseed=2, allow=("struct", "pre"))
+        descs, _, _ = enumerate_with_seeds(["job", "jobout"], ["job-up", "job-holder", "job-outpre"], N=6, k=4, kseed=2, allow=("struct", "pre"))
     with Pool(seeds=[(ctx.seed + i) % 4096 for i in range(16)], init="engines.gwork:init") as pool:
         outs = pool.map("engines.gwork:eval_deps", [{"G": d} for d in descs])
     n, shapes = 0, set()
